@@ -1,6 +1,34 @@
 -------------------------------- MODULE MCBuild --------------------------------
+(* The design check of CodecBuild: small families of related types, every          *)
+(* interleaving of two or three processes asking for them on one fresh registry.   *)
 EXTENDS CodecBuild
 CONSTANTS p1, p2, p3
+St(fs) == [kind |-> "struct", fields |-> fs, dup |-> FALSE]
+Wr(e) == [kind |-> "wrap", elem |-> e, bad |-> FALSE]
+MCTypeDef == [ R      |-> St(<<"sliceR", "int">>),          \* recursive through a slice
+               sliceR |-> Wr("R"),
+               P      |-> St(<<"int", "ptrP">>),            \* ... a pointer
+               ptrP   |-> Wr("P"),
+               M      |-> St(<<"mapM">>),                   \* ... a map value
+               mapM   |-> [kind |-> "map", key |-> "nint", val |-> "M"],
+               A      |-> St(<<"ptrB", "int">>),            \* mutually recursive pair
+               B      |-> St(<<"sliceA", "int">>),
+               ptrB   |-> Wr("B"),
+               sliceA |-> Wr("A"),
+               N      |-> St(<<"N2", "nint">>),             \* nested, not recursive, with a named basic type
+               N2     |-> St(<<"nint">>),
+               F      |-> St(<<"sliceF", "bad">>),          \* a recursive definition that must fail
+               sliceF |-> Wr("F"),
+               D      |-> [kind |-> "struct", fields |-> <<"sliceD", "int">>, dup |-> TRUE],    \* ... that fails on a duplicate index, after all fields
+               sliceD |-> Wr("D"),
+               G      |-> St(<<"sliceG", "ssR">>),          \* ... on a slice that has no wrapper, after its element was built
+               sliceG |-> Wr("G"),
+               ssR    |-> [kind |-> "wrap", elem |-> "sliceR", bad |-> TRUE],
+               K      |-> St(<<"mapK", "sliceR">>),         \* struct-keyed map next to a recursive type
+               mapK   |-> [kind |-> "map", key |-> "N2", val |-> "sliceR"],
+               int    |-> [kind |-> "basic"],
+               nint   |-> [kind |-> "named"],
+               bad    |-> [kind |-> "unsupported"] ]
 \* what the processes ask for, per family
 W2(a, b) == [x \in {p1, p2} |-> IF x = p1 THEN a ELSE b]
 W3(a, b, c) == [x \in {p1, p2, p3} |-> IF x = p1 THEN a ELSE IF x = p2 THEN b ELSE c]
@@ -13,6 +41,10 @@ WantAsB == W2("sliceA", "ptrB")
 WantN == W2("N", "N2")
 WantF == W2("F", "sliceF")
 WantFR == W2("sliceF", "R")
+WantD == W2("D", "sliceD")
+WantG == W2("G", "R")
+WantK == W2("K", "mapK")
+WantKR == W2("mapK", "R")
 Want3 == W3("R", "sliceR", "sliceR")
 Want3AB == W3("A", "B", "sliceA")
 =============================================================================
